@@ -10,31 +10,33 @@
 (*    shaped stream procedures keep the stream coherent with the abstract     *)
 (*    array after EVERY request, requests out of range change nothing.        *)
 EXTENDS ProjDataStore
-CONSTANTS MaxDepth,     \* writes per history, non-TOF geometries
-          TofDepth,     \* writes per history, TOF geometries
-          Level         \* 1 = quick family of geometries, 2 = thorough
+CONSTANTS Level         \* 1 = quick family of geometries / depths, 2 = thorough
 VARIABLES g, L, fresh, posT, store, file, cnt, err
 
 vars == << g, L, fresh, posT, store, file, cnt, err >>
 
-Geo(minSeg, ax, nv, nt, nk) ==
+\* d = number of requests per history for this geometry
+Geo(minSeg, ax, nv, nt, nk, d) ==
   [minSeg |-> minSeg, maxSeg |-> minSeg + Len(ax) - 1, ax |-> ax, minView |-> 0, maxView |-> nv - 1,
-   minTang |-> -(nt \div 2), maxTang |-> -(nt \div 2) + nt - 1, minTof |-> -(nk \div 2), maxTof |-> nk \div 2]
+   minTang |-> -(nt \div 2), maxTang |-> -(nt \div 2) + nt - 1, minTof |-> -(nk \div 2), maxTof |-> nk \div 2, d |-> d]
 Geoms ==
-  { Geo(-1, << <<0, 0>>, <<0, 1>>, <<0, 0>> >>, 2, 2, 1),          \* 3 segments, 1/2/1 axial positions
-    Geo(0, << <<0, 1>> >>, 2, 3, 1),                               \* a single segment
-    Geo(-1, << <<0, 0>>, <<0, 1>>, <<0, 0>> >>, 2, 2, 3) }         \* TOF, 3 bins
-  \cup (IF Level >= 2 THEN
-    { Geo(-1, << <<0, 1>>, <<0, 2>>, <<0, 0>> >>, 3, 2, 1),        \* asymmetric axial sizes, axial sizes 2/3/1
-      Geo(-1, << <<0, 1>>, <<0, 2>>, <<0, 1>>, <<0, 0>> >>, 2, 2, 1),   \* asymmetric segment range -1..2
-      Geo(-2, << <<0, 0>>, <<0, 1>>, <<0, 2>>, <<0, 1>>, <<0, 0>> >>, 2, 1, 1),  \* 5 segments: 120 permutations
-      Geo(-1, << <<1, 1>>, <<0, 2>>, <<1, 1>> >>, 2, 2, 3),        \* TOF, axial ranges not starting at 0
-      Geo(0, << <<0, 1>> >>, 3, 2, 5) }                            \* TOF, 5 bins
-   ELSE {})
+  IF Level = 1 THEN
+  { Geo(-1, << <<0, 0>>, <<0, 1>>, <<0, 0>> >>, 2, 2, 1, 2),          \* 3 segments, 1/2/1 axial positions
+    Geo(0, << <<0, 1>> >>, 2, 3, 1, 2),                               \* a single segment
+    Geo(-1, << <<0, 0>>, <<0, 1>>, <<0, 0>> >>, 2, 2, 3, 1) }         \* TOF, 3 bins
+  ELSE
+  { Geo(-1, << <<0, 0>>, <<0, 1>>, <<0, 0>> >>, 2, 2, 1, 2),
+    Geo(0, << <<0, 1>> >>, 2, 3, 1, 3),
+    Geo(-1, << <<0, 0>>, <<0, 1>>, <<0, 0>> >>, 2, 2, 3, 2),
+    Geo(-1, << <<0, 1>>, <<0, 2>>, <<0, 0>> >>, 3, 2, 1, 2),        \* asymmetric axial sizes 2/3/1, 3 views
+    Geo(-1, << <<0, 1>>, <<0, 2>>, <<0, 1>>, <<0, 0>> >>, 2, 2, 1, 1),   \* asymmetric segment range -1..2
+    Geo(-2, << <<0, 0>>, <<0, 1>>, <<0, 2>>, <<0, 1>>, <<0, 0>> >>, 2, 1, 1, 1),  \* 5 segments: 120 permutations
+    Geo(-1, << <<1, 1>>, <<0, 2>>, <<1, 1>> >>, 2, 2, 3, 1),        \* TOF, axial ranges not starting at 0
+    Geo(0, << <<0, 1>> >>, 3, 2, 5, 2) }                            \* TOF, 5 bins
 
 Perms(S) == { q \in [1..Cardinality(S) -> S] : \A i, j \in 1..Cardinality(S) : i # j => q[i] # q[j] }
 Layouts(gg) == { [byView |-> bv, seq |-> q] : bv \in BOOLEAN, q \in Perms(Segs(gg)) }
-Depth == IF NK(g) > 1 THEN TofDepth ELSE MaxDepth
+Depth == g.d
 
 \* values: distinct per write and per element, never 0
 Val(i) == (cnt + 1) * 100 + i
